@@ -1314,6 +1314,21 @@ impl<'a> LL1Validator {
         }
     }
 
+    /// A predicate exempts the operand of a repetition or option from the conflict check, but
+    /// an operand that can match the empty word is never left (and has no token to dispatch on).
+    fn check_guarded_nullable(
+        cst: &Cst<'_>,
+        sema: &SemanticData<'a>,
+        diags: &mut Vec<Diagnostic>,
+        op: Regex,
+    ) {
+        if Self::has_predicate(cst, op)
+            && sema.first_sets[&op.syntax()].contains(&TokenName::EPSILON)
+        {
+            diags.push(Diagnostic::consume_tokens(&op.span(cst)));
+        }
+    }
+
     fn skip_first(cst: &Cst<'_>, op: Regex) -> Regex {
         let Regex::Concat(concat) = op else {
             unreachable!()
@@ -1455,6 +1470,7 @@ impl<'a> LL1Validator {
             }
             Regex::Star(star) => {
                 if let Some(op) = star.operand(cst) {
+                    Self::check_guarded_nullable(cst, sema, diags, op);
                     let intersection = sema.follow_sets[&regex.syntax()]
                         .intersection(&sema.predict_sets[&op.syntax()])
                         .cloned()
@@ -1468,6 +1484,7 @@ impl<'a> LL1Validator {
             }
             Regex::Plus(plus) => {
                 if let Some(op) = plus.operand(cst) {
+                    Self::check_guarded_nullable(cst, sema, diags, op);
                     let intersection = sema.follow_sets[&regex.syntax()]
                         .intersection(&sema.predict_sets[&op.syntax()])
                         .cloned()
@@ -1481,6 +1498,7 @@ impl<'a> LL1Validator {
             }
             Regex::Optional(opt) => {
                 if let Some(op) = opt.operand(cst) {
+                    Self::check_guarded_nullable(cst, sema, diags, op);
                     let intersection = sema.follow_sets[&regex.syntax()]
                         .intersection(&sema.predict_sets[&op.syntax()])
                         .cloned()
